@@ -4,6 +4,7 @@ import itertools
 import threading
 import json
 import os
+import sys
 
 from hypothesis import strategies as st
 
@@ -296,6 +297,53 @@ class RaceCompileError(Suite):
 
     def run(self, case):
         return run_race_error(case)
+
+
+# ------------------------------------------------------------------ (a'') the very first requests of a PROCESS
+
+
+class FreshProcess(Suite):
+    """State that falcon initialises lazily at module level exists once per process, so only the first requests a
+    process ever serves can race on it.  Every case starts a fresh Python process (vf.checks.c19_fresh) that imports
+    falcon from source, builds one WSGI app and runs two first-ever requests (percent-escapes of every flavour in path
+    and query, Accept negotiation, converters) under the scheduler with EVERY line of EVERY falcon module as a possible
+    pre-emption point: thread 0 is pre-empted after k line events (k on a stride over the whole first request), thread 1
+    runs to completion, thread 0 resumes.  Oracle: each response equals the statically known answer for that request."""
+
+    name = 'fresh_process'
+    exhaustive = True
+    budget = {'quick': 1, 'thorough': 1}
+    case_timeout = 120
+
+    def cases(self, tier):
+        stride = 24 if tier == 'quick' else 2
+        for pair, mult in (([0, 1], 1), ([1, 2], 2), ([2, 0], 2)):
+            for k in range(0, 1400, stride * mult):
+                yield {'reqs': pair, 'plan': [[0, k]]}
+        for k1 in range(0, 1400, stride * 6):
+            yield {'reqs': [1, 0], 'plan': [[0, k1], [1, 40], [0, 25], [1, 60]]}
+
+    def run(self, case):
+        import subprocess
+        env = dict(os.environ, PYTHONHASHSEED='0')
+        env['PYTHONPATH'] = os.pathsep.join([boot.VERIF_ROOT, boot.DEPS] + ([env['PYTHONPATH']] if env.get('PYTHONPATH') else []))
+        r = subprocess.run([sys.executable, '-B', '-m', 'vf.checks.c19_fresh', json.dumps({'plan': case['plan'], 'reqs': case['reqs']})],
+                           env=env, capture_output=True, text=True, timeout=110)
+        line = (r.stdout.strip().splitlines() or [''])[-1]
+        try:
+            out = json.loads(line)
+        except ValueError:
+            raise HarnessError('fresh process produced no result (rc=%s): %s %s' % (r.returncode, r.stdout[-300:], r.stderr[-600:]))
+        if 'harness' in out:
+            raise HarnessError('fresh process: %s' % out['harness'])
+        ctx = 'fresh process, first-ever requests %r, plan=%r, switches=%r' % (case['reqs'], case['plan'], out['switches'])
+        if out['deadlock']:
+            raise Violation('deadlock', '%s; %s' % (out['deadlock'], ctx))
+        for k, (got, exp) in enumerate(zip(out['results'], out['expected'])):
+            if got != exp:
+                raise Violation('response_differs', 'request #%d of the pair got %r, on its own it gets %r; %s' % (k, got, exp, ctx))
+        mid = any(w[3] not in ('end', 'lock') for w in out['switches'])
+        return Info(mid, ['threads:2', 'preempted_in:' + (out['switches'][0][3].split(':')[0] if out['switches'] else 'never')])
 
 
 K_MAX = 1300  # a first request executes ~1170 line events inside the router (compile + find)
@@ -850,5 +898,5 @@ class AsgiRandom(Suite):
         return run_asgi_tasks(case)
 
 
-SUITES = [RaceSinglePreemption(), RaceDoublePreemption(), RaceCompileError(), RaceRandom(), SteadyEnum(), AppLines(), AsgiEnum(), AsgiRandom()]
+SUITES = [RaceSinglePreemption(), RaceDoublePreemption(), RaceCompileError(), FreshProcess(), RaceRandom(), SteadyEnum(), AppLines(), AsgiEnum(), AsgiRandom()]
 KNOWN = {}
